@@ -2,6 +2,7 @@ import PprofVerif.Lemmas.MergeIntern
 import PprofVerif.Lemmas.MergeAccum
 import PprofVerif.Lemmas.MergeKeys
 import PprofVerif.Lemmas.MergeHeaders
+import PprofVerif.Lemmas.MergeTop
 /-!
 # C03 — Merging conserves every stack's weight and symbol information
 
@@ -19,20 +20,12 @@ open PV.Wire (InI64)
 
 /-- `Function.key` distinguishes exactly name, system name, file name and start line. -/
 theorem functionKey_injective (f g : Function) :
-    functionKey f = functionKey g ↔ funcIdent f = funcIdent g := by
-  cases f; cases g; simp [functionKey, funcIdent]; tauto
+    functionKey f = functionKey g ↔ funcIdent f = funcIdent g := functionKey_eq_iff f g
 
 /-- `Mapping.key` distinguishes exactly the binary identity: build id (or, without one, the
 file), the 4 KiB-rounded size and the file offset — not the load address, id or flags. -/
 theorem mappingKey_eq_iff_sameBinary (m m' : Mapping) :
-    mappingKey m = mappingKey m' ↔ mapIdent m = mapIdent m' := by
-  have hb : ∀ x : Mapping, (if x.buildID ≠ [] then x.buildID else if x.file ≠ [] then x.file else []) =
-      (if x.buildID = [] then x.file else x.buildID) := by
-    intro x; by_cases h1 : x.buildID = [] <;> by_cases h2 : x.file = [] <;> simp [h1, h2]
-  simp only [mappingKey, mapIdent, MappingKey.mk.injEq, MapIdent.mk.injEq, hb]
-  constructor
-  · rintro ⟨h1, h2, h3⟩; exact ⟨h3, h1, h2⟩
-  · rintro ⟨h1, h2, h3⟩; exact ⟨h2, h3, h1⟩
+    mappingKey m = mappingKey m' ↔ mapIdent m = mapIdent m' := mappingKey_eq_iff m m'
 
 -- the same binary mapped elsewhere (ASLR), other id, other flags, size differing below 4 KiB
 example : mappingKey ⟨1, 0x1000, 0x3000, 0, [47], [1], false, false, false, false⟩ =
@@ -154,5 +147,153 @@ theorem period_rule_needs_nonneg : [0, -3].foldl pstep 0 ≠ maxPeriod [0, -3] :
 
 -- the time rule on the witness of defect #4: times [5,0,9] give 5
 example : earliestNonZero [5, 0, 9] = 5 ∧ [5, 0, 9].foldl tstep 0 = 5 := by decide
+
+/-! ## the merge -/
+
+/-- On the locations the traversal meets, the concrete `Location.key` of the remapped location
+(rebased address, merged mapping id, merged function ids) agrees exactly with the frame identity
+of the Spec (invariant I3 of DESIGN A.2). -/
+theorem locationKey_iff_frameIdent (srcs : List Src) (l1 l2 : RLocation) (h1 : l1 ∈ allLocs srcs) :
+    locKeyOf (buildTables srcs).ftab (buildTables srcs).mtab l1 =
+      locKeyOf (buildTables srcs).ftab (buildTables srcs).mtab l2 ↔ frameIdent l1 = frameIdent l2 :=
+  locKeyOf_eq_iff _ _ l1 l2 (locIn_of_mem_allLocs srcs h1)
+
+/-- **C03, main theorem.**  For every non-empty list of valid profiles (values are int64,
+periods non-negative) that are compatible with the first: `Merge` returns a profile `r` — the
+re-merge recursion terminates, nothing panics — such that
+  * `r` is valid;
+  * for **every** stack key `k` (frames compared by binary identity, relative address, function
+    name / system name / file / start line, line, column, inline nesting, folded flag; plus the
+    label sets), `weight r k` is the element-wise int64 sum of `weight p k` over the inputs —
+    so nothing is added, dropped or altered;
+  * every stack key occurs in at most one sample of `r`;
+  * no sample of `r` is all-zero;
+  * the header is the documented combination. -/
+theorem merge_conserves (first : Profile) (rest : List Profile)
+    (hv : ∀ p ∈ first :: rest, p.Valid) (ht : ∀ p ∈ first :: rest, Typed p)
+    (hc : ∀ p ∈ rest, compatibleB first p = true) (hper : ∀ p ∈ first :: rest, 0 ≤ p.period) :
+    ∃ r, merge (first :: rest) = .ok r ∧ r.Valid ∧
+      (∀ k, weight r k = mergedWeight (first :: rest) k) ∧
+      (∃ rr, resolve r = some rr ∧ (rr.map stackKey).Nodup) ∧
+      (∀ s ∈ r.samples, isZeroV s.values = false) ∧
+      headerOf r = combineHeadersSpec first rest := by
+  obtain ⟨r, hr, hval, _, _, _, hw, hnd, hnz, _⟩ := merge_spec first rest ⟨hv, ht, hc⟩
+  exact ⟨r, hr, hval, hw, hnd, hnz, merge_header first rest ⟨hv, ht, hc⟩ hper r hr⟩
+
+-- non-vacuity: two compatible valid profiles sharing a stack (ids collide, binary mapped elsewhere)
+private def exM (id start : Nat) : Mapping := ⟨id, start, start + 0x2000, 0, [47, 97], [98], true, false, false, false⟩
+private def exP (mid start v : Int) : Profile :=
+  { sampleType := [⟨[99], [110]⟩], defaultSampleType := [], periodType := some ⟨[99], [110]⟩, period := 1,
+    samples := [⟨[1], [v], [], [], []⟩], mappings := [exM mid.toNat start.toNat],
+    locations := [⟨1, mid.toNat, start.toNat + 0x10, [⟨1, 5, 2⟩], false⟩],
+    functions := [⟨1, [102], [102], [97], 10⟩], comments := [], docURL := [], dropFrames := [], keepFrames := [],
+    timeNanos := 5, durationNanos := 1 }
+example : (∀ p ∈ [exP 1 0x1000 3, exP 7 0x7f0000 4], p.Valid) ∧ (∀ p ∈ [exP 1 0x1000 3, exP 7 0x7f0000 4], Typed p) ∧
+    compatibleB (exP 1 0x1000 3) (exP 7 0x7f0000 4) = true := by
+  refine ⟨by decide, ?_, by decide⟩
+  intro p hp
+  simp only [List.mem_cons, List.mem_nil_iff, or_false] at hp
+  rcases hp with rfl | rfl <;> (intro s hs; simp [exP] at hs; subst hs; simp [InI64, PV.Wire.two63])
+
+/-- `Merge` of valid compatible inputs never ends in the model's fuel panic: the re-merge
+recursion terminates (its measure is the sample count). -/
+theorem merge_terminates (first : Profile) (rest : List Profile)
+    (hv : ∀ p ∈ first :: rest, p.Valid) (ht : ∀ p ∈ first :: rest, Typed p)
+    (hc : ∀ p ∈ rest, compatibleB first p = true) : ∀ site, merge (first :: rest) ≠ .panic site := by
+  obtain ⟨r, hr, _⟩ := merge_spec first rest ⟨hv, ht, hc⟩
+  intro site h; rw [hr] at h; cases h
+
+/-- **order independence**: permuting the inputs does not change the weight function of the result. -/
+theorem merge_perm (f1 : Profile) (r1 : List Profile) (f2 : Profile) (r2 : List Profile)
+    (h1 : Inputs f1 r1) (h2 : Inputs f2 r2) (hp : (f1 :: r1).Perm (f2 :: r2)) :
+    ∃ a b, merge (f1 :: r1) = .ok a ∧ merge (f2 :: r2) = .ok b ∧ ∀ k, weight a k = weight b k := by
+  obtain ⟨a, ha, _, _, _, _, hwa, _⟩ := merge_spec f1 r1 h1
+  obtain ⟨b, hb, _, _, _, _, hwb, _⟩ := merge_spec f2 r2 h2
+  refine ⟨a, b, ha, hb, fun k => ?_⟩
+  rw [hwa k, hwb k]
+  have hn : f2.sampleType.length = f1.sampleType.length := h1.lengths f2 (hp.mem_iff.mpr (by simp))
+  show sumV _ _ = sumV _ _
+  rw [hn]
+  exact sumV_perm (hp.map _)
+
+/-- `Compact` conserves the weight function of the profile. -/
+theorem compact_conserves (p : Profile) (hv : p.Valid) (ht : Typed p) :
+    ∃ c, compact p = .ok c ∧ c.Valid ∧ Typed c ∧ ∀ k, weight c k = weight p k := by
+  have hin : Inputs p [] := ⟨by intro q hq; simp at hq; subst hq; exact hv,
+    by intro q hq; simp at hq; subst hq; exact ht, compatibleB_self_single p⟩
+  obtain ⟨c, hc, hval, htyp, _, _, hw, _⟩ := merge_spec p [] hin
+  refine ⟨c, hc, hval, htyp, fun k => ?_⟩
+  rw [hw k]
+  obtain ⟨src, _, hok⟩ := srcOK_of_valid hv ht
+  show sumV _ [weight p k] = weight p k
+  apply sumV_singleton
+  simp only [weight, hok.res]
+  exact weightR_VecOK hok.ok k
+
+/-- **compacting twice equals compacting once** (weight function and header). -/
+theorem compact_idem (p : Profile) (hv : p.Valid) (ht : Typed p) (hper : 0 ≤ p.period) :
+    ∃ c1 c2, compact p = .ok c1 ∧ compact c1 = .ok c2 ∧ (∀ k, weight c2 k = weight c1 k) ∧
+      headerOf c2 = headerOf c1 := by
+  obtain ⟨c1, hc1, hv1, ht1, hw1⟩ := compact_conserves p hv ht
+  obtain ⟨c2, hc2, _, _, hw2⟩ := compact_conserves c1 hv1 ht1
+  have hin : Inputs p [] := ⟨by intro q hq; simp at hq; subst hq; exact hv,
+    by intro q hq; simp at hq; subst hq; exact ht, compatibleB_self_single p⟩
+  have hh1 : headerOf c1 = combineHeadersSpec p [] :=
+    merge_header p [] hin (by intro q hq; simp at hq; subst hq; exact hper) c1 hc1
+  have hp1 : 0 ≤ c1.period := by
+    have := congrArg Header.period hh1
+    have h2 : c1.period = maxPeriod ([p].map (·.period)) := this
+    rw [h2]; exact maxPeriod_nonneg _
+  have hin1 : Inputs c1 [] := ⟨by intro q hq; simp at hq; subst hq; exact hv1,
+    by intro q hq; simp at hq; subst hq; exact ht1, compatibleB_self_single c1⟩
+  have hh2 : headerOf c2 = combineHeadersSpec c1 [] :=
+    merge_header c1 [] hin1 (by intro q hq; simp at hq; subst hq; exact hp1) c2 hc2
+  exact ⟨c1, c2, hc1, hc2, hw2, by rw [hh2, combineHeadersSpec_single c1 p [] hh1]⟩
+
+/-- **merging in chunks** (needed by C16): merging the merges of two chunks weighs the same as
+merging everything at once. -/
+theorem merge_assoc_abs (f1 : Profile) (r1 : List Profile) (f2 : Profile) (r2 : List Profile)
+    (h1 : Inputs f1 r1) (h2 : Inputs f2 r2) (h12 : Inputs f1 (r1 ++ f2 :: r2)) :
+    ∃ a b c d, merge (f1 :: r1) = .ok a ∧ merge (f2 :: r2) = .ok b ∧ merge [a, b] = .ok c ∧
+      merge (f1 :: (r1 ++ f2 :: r2)) = .ok d ∧ ∀ k, weight c k = weight d k := by
+  obtain ⟨a, ha, hva, hta, hsa, hpa, hwa, _⟩ := merge_spec f1 r1 h1
+  obtain ⟨b, hb, hvb, htb, hsb, hpb, hwb, _⟩ := merge_spec f2 r2 h2
+  have hc12 : compatibleB f1 f2 = true := h12.compat f2 (by simp)
+  have hcab : compatibleB a b = true := by
+    unfold compatibleB at hc12 ⊢
+    rw [hsa, hpa, hsb, hpb]; exact hc12
+  have hin : Inputs a [b] := ⟨by intro q hq; simp at hq; rcases hq with rfl | rfl <;> assumption,
+    by intro q hq; simp at hq; rcases hq with rfl | rfl <;> assumption,
+    by intro q hq; simp at hq; subst hq; exact hcab⟩
+  obtain ⟨c, hc, _, _, _, _, hwc, _⟩ := merge_spec a [b] hin
+  obtain ⟨d, hd, _, _, _, _, hwd, _⟩ := merge_spec f1 (r1 ++ f2 :: r2) h12
+  refine ⟨a, b, c, d, ha, hb, hc, hd, fun k => ?_⟩
+  have hn2 : f2.sampleType.length = f1.sampleType.length := sampleType_length_of_compatibleB hc12
+  have hlen : ∀ p ∈ f1 :: (r1 ++ f2 :: r2), (weight p k).length = f1.sampleType.length := by
+    intro p hp
+    obtain ⟨src, _, hok⟩ := srcOK_of_valid (h12.valid p hp) (h12.typed p hp)
+    simp only [weight, hok.res]
+    rw [(weightR_VecOK hok.ok k).1]
+    exact h12.lengths p hp
+  rw [hwc k, hwd k]
+  show sumV a.sampleType.length [weight a k, weight b k] = sumV f1.sampleType.length _
+  rw [hwa k, hwb k]
+  show sumV a.sampleType.length [sumV f1.sampleType.length _, sumV f2.sampleType.length _] = sumV f1.sampleType.length _
+  rw [hsa, hn2]
+  have e : (f1 :: (r1 ++ f2 :: r2)) = (f1 :: r1) ++ (f2 :: r2) := by simp
+  have hl1 : ∀ v ∈ (f1 :: r1).map (weight · k), v.length = f1.sampleType.length := by
+    intro v hv
+    obtain ⟨p, hp, rfl⟩ := List.mem_map.mp hv
+    exact hlen p (by rw [e]; exact List.mem_append_left _ hp)
+  have hl2 : ∀ v ∈ (f2 :: r2).map (weight · k), v.length = f1.sampleType.length := by
+    intro v hv
+    obtain ⟨p, hp, rfl⟩ := List.mem_map.mp hv
+    exact hlen p (by rw [e]; exact List.mem_append_right _ hp)
+  rw [e, List.map_append, sumV_append _ _ hl1 hl2]
+  have hX := sumV_VecOK _ hl1
+  generalize sumV f1.sampleType.length (List.map (fun x => weight x k) (f1 :: r1)) = X at hX ⊢
+  generalize sumV f1.sampleType.length (List.map (fun x => weight x k) (f2 :: r2)) = Y
+  simp only [sumV, List.foldl_cons, List.foldl_nil]
+  rw [zeroV_addV hX]
 
 end PV.Props.C03
